@@ -29,7 +29,9 @@ def gen_params(rng, tier):
     return {"spec": spec,
             "sa": [[d, w] for d, w in gen.gen_stream(rng, spec, rng.randint(0, 9))],
             "sb": [[d, w] for d, w in gen.gen_stream(rng, spec, rng.randint(0, 6))],
-            "pre": rng.choice(["none", "none", "add", "mul", "copy", "mul0"]),
+            "pre": rng.choice(["none", "none", "add", "mul", "copy", "mul0", "npint", "npf4"]),
+            # integral numeric data for the vectorised fills from int64 / float32 arrays ("npint", "npf4")
+            "nprows": [[[float(rng.randint(-4, 9)) for _ in range(4)] + ["a", rng.random() < 0.5, [1.0, 0.5], "b"], 1.0] for _ in range(rng.randint(2, 6))],
             "f": rng.choice([0.5, 2.0, 3.0, 0.25, 0.0, -1.0])}
 
 
@@ -47,6 +49,13 @@ def build(p):
         ops.append(("mul", "a", "a0", 0.0))
     elif pre == "copy":
         ops.append(("copy", "a", "a0"))
+    elif pre in ("npint", "npf4") and any("q" in s_ for s_ in gen.walk(spec)) and not any(s_["k"] == "Sum" for s_ in gen.walk(spec)) and p.get("nprows"):
+        # two successive vectorised fills from an integer / single-precision array, ascending so that extrema move each time
+        nr = sorted([(r[0], r[1]) for r in p["nprows"]], key=lambda r: r[0][0])
+        half = max(1, len(nr) // 2)
+        ops.append(("copy", "a", "a0"))
+        ops.append(("fillsnp", "a", nr[:half], "array", "i8" if pre == "npint" else "f4"))
+        ops.append(("fillsnp", "a", nr[half:], "array", "i8" if pre == "npint" else "f4"))
     else:
         ops.append(("add", "a", "a0", "a0"))
     expect = []
